@@ -40,6 +40,12 @@ CHECKS = {
          "unary operations, re-scaling, normalising, sums) ends with exactly the value of the same program over Q; C19_representation_independent: accumulators of equal value give results of "
          "equal value whatever their forms. Correspondence: random programs, every prefix compared, plus ==/cmp/hash cross-checks along the way.",
          NOTE_COMMON, "Lean 4 proof (invariant over operation sequences) + differential correspondence check on random programs", "DESIGN.md §5 C19"),
+ "C02": ("Kernel-checked Lean theorems C02_eq_iff and C02_cmp_spec: the model of check_equality_bigdecimal_ref and Ord (sign cases, checked scale difference incl. >= 2^63, bit-length "
+         "prefilter, u32-limb loop with u64 overflow guards and allocating fall-back, digit-wise path, u64/u128 fast paths, digit-count compare, most-significant-first digit loop) "
+         "equals equality / compare of the rational values for all operands below 2^64 bits; ==/cmp agreement, antisymmetry, transitivity; guardedness of the limb loop. "
+         "Correspondence on all twelve observable answers incl. limb-boundary operands in every limb position.",
+         NOTE_COMMON + " The f64 product in the prefilter enters as the scalar condition PreOK (2^pre(k) <= 10^k), proved for the real formula.",
+         "Lean 4 proof + differential correspondence check", "DESIGN.md §5 C02"),
 }
 
 NOT_YET = "check under construction in this round (not yet claimed); see DESIGN.md §11 order of work"
